@@ -192,6 +192,11 @@ func (trr *TimeRangeReader) readAllTimestampsForBlock(blockNum uint16) error {
 
 	cOffLen := blockMeta.ColBlockOffAndLen[cnameIdx]
 
+	err = segreader.CheckBlockLiesInFile(trr.timeFD, cOffLen.Offset, cOffLen.Length)
+	if err != nil {
+		return err
+	}
+
 	if trr.blockReadBuffer == nil {
 		trr.blockReadBuffer = segreader.GetBufFromPool(int64(cOffLen.Length))
 	} else if len(trr.blockReadBuffer) < int(cOffLen.Length) {
@@ -436,6 +441,11 @@ func ReadAllTimestampsForBlock(blkNums map[uint16]struct{}, segKey string,
 			} else {
 				break
 			}
+		}
+		err := segreader.CheckBlockLiesInFile(fd, firstBlkOff, blkLen)
+		if err != nil {
+			retErr = ErrReadChunk
+			continue
 		}
 		buffer := segreader.GetBufFromPool(int64(blkLen))
 		rawChunk, err := readChunkFromFile(fd, buffer, blkLen, firstBlkOff)
